@@ -1052,7 +1052,13 @@ impl TypedExpr {
                         }
                         circuit.push_panic_if(all_zero, PanicReason::DivByZero, meta);
                         if is_signed(ty) {
-                            circuit.push_signed_division_circuit(&mut x, &mut y).0
+                            let same_sign = circuit.push_eq(x[0], y[0]);
+                            let quotient = circuit.push_signed_division_circuit(&mut x, &mut y).0;
+                            // operands of the same sign have a non-negative quotient; only MIN / -1
+                            // produces a negative one (the magnitude 2^(bits - 1) does not fit)
+                            let overflow = circuit.push_and(same_sign, quotient[0]);
+                            circuit.push_panic_if(overflow, PanicReason::Overflow, meta);
+                            quotient
                         } else {
                             circuit.push_unsigned_division_circuit(&x, &y).0
                         }
